@@ -11,11 +11,11 @@ META = {
     "text": "Coq theorems: radix_tree_wf_all - the ported CreateRadixTree (RangeEnd/FindSplit/PrefixLength with index tie-break) yields, for EVERY sorted code list with 2 <= n < 2^30 and any multiset of codes, "
             "a binary tree over leaves 0..n-1 (each once) of depth <= 64; collisions_exact_box/point - for every array set accepted by the proved-sound certificate wf_check (which such trees with union boxes pass) "
             "the ported 64-entry-stack traversal terminates without overflow and records exactly the overlapping (query,leaf) pairs, each once, for all sizes and queries (boxes may be unbounded); "
-            "sweep_pairs_exact and kd_query_exact_multiset prove the 2-D x-sorted sweep and the polygon k-d tree exact for all inputs. The ports are compared array-for-array with /repo's Collider, "
+            "sweep_pairs_exact and kd_query_exact_multiset prove the 2-D x-sorted sweep and the polygon k-d tree exact for all inputs; query_stack_never_overflows proves that QueryTwoDTree's loop over its 64-entry stack arrays never overflows them for any array of < 2^64 points and reports what the recursive traversal reports. The ports are compared array-for-array with /repo's Collider, "
             "boolean2 BVH, CollectIntersectionPairs and QueryTwoDTree on generated inputs (sizes straddling the probe length read from the source, identical codes, degenerate boxes, unbounded and empty queries); "
             "wf_check runs on every tree the implementation builds; recorded pairs are compared with the all-pairs scan.",
     "note": "Trusted: Coq kernel, extraction (ExtrOcamlBasic), the C++ harnesses reading Collider's private arrays, integer-valued boxes standing for doubles (order-isomorphic embedding, +-2^60 for +-infinity). "
-            "Not modelled: C++ int overflow in RangeEnd for n > 2^29 leaves; the 64-entry explicit stack of QueryTwoDTree (recursion in the model); "
+            "Not modelled: C++ int overflow in RangeEnd for n > 2^29 leaves; "
             "BuildInternalBoxes' atomic arrival counters (modelled as order-independent unions); MortonCode's floating-point part; Collider::Transform/UpdateBoxes are covered only through the box-level theorem (any boxes).",
 }
 
@@ -155,7 +155,7 @@ def run(cx):
     cx.assumptions += [
         "collisions_exact_* are stated for every array set accepted by wf_check; radix_tree_wf_all proves that the ported CreateRadixTree produces such a tree for every sorted code list with 2 <= n < 2^30 (unbounded Z arithmetic: the C++ int overflow of max_length for n > 2^29 is outside the model); wf_check is additionally evaluated (extracted) on every tree the implementation builds in this run",
         "leaf boxes and queries are integer valued in the correspondence (finite doubles embed order-isomorphically; min/max/<= are exact)",
-        "QueryTwoDTree's explicit 64-entry stack is modelled by recursion (depth <= log2 n + 1 is not proved)",
+        "query_stack_never_overflows: QueryTwoDTree's loop with its explicit stack is modelled literally (query_stk); the stack size and leaf size of the model are compared with tree2d.h on every run; the driver runs the explicit-stack form",
         "sweep_pairs_exact covers membership, not multiplicity (the oracle compares the exact list)",
     ]
     cx.prove()
@@ -165,6 +165,14 @@ def run(cx):
                   consts.get("kInitialLength") is not None and consts.get("kLengthMultiple", 0) and consts["kLengthMultiple"] >= 2
                   and consts["kInitialLength"] >= 1 and consts.get("kRoot") == 1,
                   "could not read kInitialLength/kLengthMultiple/kRoot from collider.h: %r" % consts)
+    t2 = open(os.path.join(vp.REPO, "src/tree2d.h")).read()
+    stacks = re.findall(r"std::array<[^;]*?,\s*(\d+)>\s+(rectStack|viewStack|levelStack)\s*;", t2)
+    leaf = re.findall(r"\.size\(\)\s*<=\s*(\d+)", t2)
+    cx.cov["tree2d_stack_sizes"] = stacks
+    cx.obligation("translate:tree2d.h stack and leaf sizes match the model (kStackSize = 64, leaf size 8: hypothesis of query_stack_never_overflows)",
+                  sorted(n for _, n in stacks) == ["levelStack", "rectStack", "viewStack"] and all(v == "64" for v, _ in stacks)
+                  and len(leaf) >= 2 and all(v == "8" for v in leaf) and "stackPointer < 64" in t2,
+                  "tree2d.h: stack arrays %r, leaf tests %r" % (stacks, leaf))
     mls = vp.coq_extract("ExtractC14", ["c14_model.ml"])
     drv = vp.ocaml_build("c14_driver", mls + [os.path.join(vp.ROOT, "extract/c14_driver.ml")])
     exe = vp.build_harness("c14_bvh", "seq", link_lib=False)
